@@ -721,8 +721,31 @@ func planC11(tier string, seed int64) (*Plan, error) {
 			jobs = append(jobs, job("H_c11_conservative", "ext", x, "base", "core", "ropts", "unsafe", "seed", sl.D.Markdown, "pos", sl.Pos, "window", 1))
 		}
 	}
+	// documents that use the syntax of the *other* extensions (so that X added to "all others" meets
+	// live shared machinery), with a one-byte symbolic window; only seeds free of X's trigger set are used
+	r11 := rand.New(rand.NewSource(seed))
+	for _, x := range c11Exts {
+		bs := bases(x)
+		for _, sd := range c11Seeds {
+			if hasTrigger(x, sd) && !(x == "linkify" && !hasTriggerStrict(x, sd)) {
+				continue
+			}
+			var poss []int
+			if thorough {
+				for q := 0; q <= len(sd); q++ {
+					poss = append(poss, q)
+				}
+			} else {
+				poss = []int{r11.Intn(len(sd) + 1), len(sd)}
+			}
+			for _, q := range poss {
+				jobs = append(jobs, job("H_c11_conservative", "ext", x, "base", bs[1], "seed", sd, "pos", q, "window", 1))
+			}
+		}
+	}
 	p.Jobs = jobs
 	p.Bounds = map[string]interface{}{
+		"feature seeds": fmt.Sprintf("X added to all other extensions on %d documents that use the other extensions' syntax (those free of X's triggers), one symbolic byte at a seeded offset and one appended (thorough: every offset): %q", len(c11Seeds), c11Seeds),
 		"extensions":    fmt.Sprint(c11Exts) + " (cjk = extension.CJK, cjkesc = escaped space only, cjkcss3 = CSS3-draft line breaks), each added to {core, all other built-in extensions}",
 		"S(2)":          "every byte string of length 0..2 without the trigger set, both bases; S(3) for a seeded fifth of the extensions (all in thorough)",
 		"S(L,alphabet)": fmt.Sprintf("length 4 (thorough 6) over a per-extension 8-byte alphabet and length 5 (7) over its first 5 bytes: %v", c11Alpha),
@@ -733,6 +756,29 @@ func planC11(tier string, seed int64) (*Plan, error) {
 	}
 	p.Rule = "two conversions per path (with and without the extension), outputs asserted byte-equal"
 	return p, nil
+}
+
+var c11Seeds = []string{
+	"see www.a.bc now\n", "go http://a.bc/d?e=f x\n", "m x@y.zw p\n", "* i\twww.a.bc\n", "(www.a.bc)\n",
+	"~~s~~ t\n", "| a | b |\n|---|:-:|\n| c | d |\n", "- [ ] t\n- [x] u\n", "a[^1] b\n\n[^1]: f\n", "t\n: d\n\n  e\n",
+	"\"q\" 'r' -- ... <<x>>\n", "# h {#i .c}\n\nh\n===\n", "`c` *e* __s__ [l](u \"t\")\n", "a\\ b c\\\nd  \ne\n", "> q\n\n1. o\n\n    c\n",
+	"<b>r</b> &amp; &#35; \\*\n", "```go\nx\n```\n", "![i](u) <http://a.bc>\n", "a\n*b*\n**c**\n[d](e)\n`f`\n",
+}
+
+// hasTriggerStrict is hasTrigger without the over-approximation used for window placement.
+func hasTriggerStrict(ext, s string) bool {
+	if ext == "linkify" {
+		for i := 0; i < len(s); i++ {
+			if s[i] == ':' || s[i] == '@' {
+				return true
+			}
+			if i+4 <= len(s) && s[i:i+4] == "www." {
+				return true
+			}
+		}
+		return false
+	}
+	return hasTrigger(ext, s)
 }
 
 func hasTrigger(ext, s string) bool {
